@@ -462,7 +462,7 @@ def jws_cases_eddsa(ctx, rng, cfg):
     jws_cases(ctx, rng, cfg, "EdDSA")
 
 
-REQUIRE = [("cases", 10000, "headers judged"), ("spec_accept", 1000, "headers the spec accepts"), ("spec_reject", 3000, "headers the spec rejects")]
+REQUIRE = [("cases", 4000, "headers judged"), ("spec_accept", 400, "headers the spec accepts"), ("spec_reject", 1200, "headers the spec rejects")]
 
 
 def replay(ctx, case):
